@@ -283,13 +283,13 @@ KeepPre  == [k \in 1 .. NArgs |-> IF mark[k] = "keep" THEN 1 ELSE 2]      \* bet
 KeepAll  == [k \in 1 .. NArgs |-> 1]
 KeepOut  == [k \in 1 .. NArgs |-> IF mark[k] = "any" THEN 2
                                   ELSE IF \E q \in 1 .. Len(out) : out[q] = k THEN 1 ELSE 0]
-Behaviour(passes) == [tb |-> tb, st |-> st, argv |-> [k \in 1 .. NArgs |-> Txt(k)], strict |-> strict,
+Behaviour(passes, ok) == [tb |-> tb, st |-> st, argv |-> [k \in 1 .. NArgs |-> Txt(k)], strict |-> ok,
                       re |-> re, passes |-> passes]
 
 Finish(passes, ok) ==
     /\ phase' = "done" /\ strict' = ok
     /\ UNCHANGED <<tb, st, argv, i, l, flags, tv, mark, badLo, badHi, badOpen, re, snap, cr, out>>
-    /\ Emit(Behaviour(passes))
+    /\ Emit(Behaviour(passes, ok))
 
 \* end of the pre-parse pass: remember its result, start the normal pass at the first word
 OpPrePassEnd ==
@@ -349,7 +349,8 @@ TypeOK == /\ phase \in {"pre", "main", "compact", "done"}
           /\ (Scanning /\ l # 0) => (l <= Len(W) /\ IsShortWord(W))
           /\ \A k \in 1 .. NArgs : mark[k] \in {"keep", "gone", "any"}
           /\ (badOpen \/ badLo <= badHi) /\ badLo >= 0
-          /\ Len(snap) = (IF "PRE" \in st /\ phase # "pre" THEN 1 ELSE 0)
+          /\ Len(snap) <= 1 /\ ((phase = "pre" \/ "PRE" \notin st) => snap = <<>>)
+          /\ (phase \in {"main", "compact"} /\ "PRE" \in st) => Len(snap) = 1
 
 \* Terminates: every step strictly advances (pass, word, letter); the rank is bounded, so every reading ends
 Terminates == [][Rank' > Rank]_vars
